@@ -176,6 +176,9 @@ def check_one(spec, fn, env, abs_args, harness):
   try:
     for p in spec.assigns:
       post[p] = dict(params)[p].abstract(conc[p])
+    for p, s_ in params:
+      if hasattr(s_, 'fields') and not isinstance(s_, Union):
+        post[p] = s_.abstract(conc[p])   # heap objects: the postcondition reads their final state
     post['result'] = spec.returns.abstract(outcome[1]) if spec.returns is not None else None
   except Exception as e:
     return Failure(spec, abs_args, 'post:result-shape', f'result {outcome[1]!r} is outside the declared return sort: {e!r}'[:300])
@@ -363,3 +366,25 @@ def size_bounds(sort, t, depth=2, seq_max=3):
         for b in size_bounds(sort.field_sort(c.name, fn), sort.acc(c.name, fn, t), depth - 1, seq_max):
           out.append(z3.Implies(sort.is_(c.name, t), b))
   return out
+
+
+
+class AbsObj:
+  """native abstract view of a heap object: its (modelled) fields"""
+  def __init__(self, **fields):
+    object.__setattr__(self, '_fields', dict(fields))
+
+  def __getattr__(self, k):
+    try:
+      return object.__getattribute__(self, '_fields')[k]
+    except KeyError:
+      raise AttributeError(k)
+
+  def __eq__(self, o):
+    return isinstance(o, AbsObj) and self._fields == o._fields
+
+  def __hash__(self):
+    return hash(repr(self))
+
+  def __repr__(self):
+    return 'AbsObj(' + ', '.join(f'{k}={v!r}' for k, v in self._fields.items()) + ')'
